@@ -39,6 +39,12 @@ def _ctr_rows():
     rows.append(("ctrwrap", 16, 0, 15, 1, 200, 4097, (4096, 1), False))
     rows.append(("ctrwrap", 16, 1, 15, 1, 7, 4097, (4097,), False))
     rows.append(("ctrwrap", 8, 0, 7, 1, 0, 2049, (2048, 1), False))
+    # the same limit when the data arrives in small pieces (requests served from the key stream generated ahead count too)
+    rows.append(("ctrwrap", 16, 0, 15, 1, 0, 4160, (64,) * 65, False))
+    rows.append(("ctrwrap", 16, 1, 15, 1, 250, 4224, (128,) * 33, False))
+    rows.append(("ctrwrap", 16, 0, 15, 1, 3, 4097, (16,) * 256 + (1,), False))
+    rows.append(("ctrwrap", 16, 0, 15, 1, 0, 4096, (64,) * 64, False))
+    rows.append(("ctrwrap", 8, 0, 7, 1, 0, 2055, (7,) * 293 + (4,), False))
     return rows
 
 
